@@ -36,3 +36,4 @@ def run(prog, rep):
     _rio4.run_roles(prog, rep)
     _rs.run_bound_belief(prog, rep)
     _rio4.run_calibration(prog, rep)
+    _rs.run_hydra_rank(prog, rep)
